@@ -1049,7 +1049,7 @@ def run(ctx):
     thorough = ctx.tier == "thorough"
 
     # ------------------------------------------------------------------ 1. Coq
-    vfiles = ["CalTab/CalTabModel.v", "CalTab/TableSpec.v", "CalTab/CalTabProofs.v", "CalTab/CalTabWalks.v",
+    vfiles = ["CalTab/CalTabModel.v", "CalTab/TableSpec.v", "CalTab/CalTabProofs.v", "CalTab/CalTabWalks.v", "CalTab/CalTabParams.v",
               "Properties_C16.v"]
     vfiles = [v for v in vfiles if os.path.exists(os.path.join(vplib.COQDIR, v))]
     coq_ok, res = ctx.coq_obligations(vfiles)
